@@ -289,6 +289,34 @@ c06b_run(const c06b_case *c, c06b_out *out) {
 			usleep((useconds_t)cm->arg * 1000);
 			snap(st->fired_at_ret);
 			break;
+		case E_REOPEN:
+			if (gb_sp[ch][0] >= 0) {
+				int old = gb_sp[ch][0], nsp[2];
+				out->hang |= fences(1); /* not while the owner is inside a callback for it */
+				if (gb_sp[ch][1] >= 0)
+					close(gb_sp[ch][1]);
+				close(old);
+				gb_sp[ch][0] = gb_sp[ch][1] = -1;
+				if (0 == socketpair(AF_UNIX, SOCK_STREAM | SOCK_NONBLOCK, 0, nsp)) {
+					if (nsp[1] == old) { /* keep the registered number for our end */
+						int t = nsp[0];
+						nsp[0] = nsp[1];
+						nsp[1] = t;
+					}
+					if (nsp[0] != old) {
+						if (-1 != dup2(nsp[0], old)) {
+							close(nsp[0]);
+							nsp[0] = old;
+						}
+					}
+					gb_sp[ch][0] = nsp[0];
+					gb_sp[ch][1] = nsp[1];
+					gb_ud[ch].ident = (uintptr_t)nsp[0];
+				}
+			}
+			out->hang |= fences(1);
+			snap(st->fired_at_ret);
+			break;
 		}
 		/* awaited callbacks: wait (generous ceiling) instead of assuming a delivery latency */
 		for (ch = 0; ch < C06_MAX_CH; ch ++) {
